@@ -164,7 +164,7 @@ Lemma parse_frame_factor fmt p fid bs :
   fid < pi_nframes p ->
   frame_rel fmt p fid (run (parse_frame inflate fmt p fid) bs) (run frame_chunks bs).
 Proof.
-  intros Hfid. unfold parse_frame, frame_chunks.
+  intros Hfid. unfold parse_frame, frame_chunks; rewrite ?frev_eq.
   apply (run_bind_rel (frame_rel fmt p fid)); [apply frame_rel_err|apply frame_rel_panic|intros num_bytes r1 _].
   apply (run_bind_rel (frame_rel fmt p fid)); [apply frame_rel_err|apply frame_rel_panic|intros magic r2 _].
   destruct (negb (magic =? 61946)); [cbn [run]; apply frame_rel_err|].
@@ -175,7 +175,7 @@ Proof.
   destruct (Z.leb_spec (pi_nframes p) fid) as [Hle|_]; [lia|].
   cbv zeta.
   apply (run_bind_rel (frame_rel fmt p fid)); [apply frame_rel_err|apply frame_rel_panic|intros st r7 _].
-  rewrite run_lift. cbn [run]. intros p' rest.
+  rewrite !frev_eq. rewrite run_lift. cbn [run]. intros p' rest.
   destruct (rfold (process_chunk inflate fmt fid) (rev (fst st))
                   (with_times p (zadd fid duration (pi_times p)))) as [q|e|s] eqn:F.
   - split.
